@@ -41,6 +41,7 @@ type c13In struct {
 	Tasks  [][]c13Op `json:"tasks"`  // shape 0: one task
 	Callers int      `json:"callers"` // shape 2
 	OnChild bool     `json:"on_child"`
+	Chain   *c13Chain `json:"chain,omitempty"` // shape 3
 }
 
 const c13Keys = 2
@@ -49,7 +50,10 @@ func c13Gen(r *Rand, tier string) interface{} {
 	in := &c13In{}
 	val := 100
 	next := func() int { val++; return val }
-	switch r.Intn(5) {
+	switch r.Intn(6) {
+	case 5:
+		in.Shape = 3
+		in.Chain = c13ChainGen(r, tier, next)
 	case 0:
 		in.Shape = 0
 		in.Depth = 1 + r.Intn(4)
@@ -185,6 +189,8 @@ func c13Run(inI interface{}, env *Env) *Failure {
 		return c13Sequential(in, env)
 	case 2:
 		return c13GetOrCreate(in, env)
+	case 3:
+		return c13ChainRun(in.Chain, env)
 	}
 	var history []porcupine.Operation
 	seq := int64(0)
@@ -383,6 +389,14 @@ func c13Shrink(inI interface{}) []interface{} {
 		}
 		return &c
 	}
+	if in.Shape == 3 {
+		for _, ch := range c13ChainShrink(in.Chain) {
+			c := *in
+			c.Chain = ch
+			out = append(out, &c)
+		}
+		return out
+	}
 	if in.Shape == 2 && in.Callers > 2 {
 		c := cp()
 		c.Callers--
@@ -418,7 +432,7 @@ func init() {
 		New:    func() interface{} { return &c13In{} },
 		Run:    c13Run,
 		Shrink: c13Shrink,
-		Rule: "one case = sequential overlay history on a chain of depth<=4 (model refinement), or 2-5 clients x <=14 operations (locked read-modify-write sections, plain reads/writes, unique values) on one data scope x one seeded schedule, checked for linearizability with porcupine (a locked section is one operation), or N concurrent callers of the three get-or-create services; " +
+		Rule: "one case = sequential overlay history on a chain of depth<=4 (model refinement), or 2-5 clients x <=14 operations (locked read-modify-write sections, plain reads/writes, unique values) on one data scope x one seeded schedule, checked for linearizability with porcupine (a locked section is one operation), or N concurrent callers of the three get-or-create services, or a 2-3 level chain used by 2-4 tasks with locked sections reaching into descendants or falling through to ancestors (no task blocks for ever, reads attributable, own value wins, child writes invisible above); " +
 			"non-trivial = a scheduling decision with more than one runnable task (sequential histories always count); distinct = distinct (input, decision sequence)",
 		Real: []string{"app/scope/datascope (DataScope, DataChildScope, DataLocker)", "tasks.Unit.FromScope", "envs.Unit.Envs", "waits.WaitManager.ForScope", "app/scope"},
 		Stub: []string{"sync.RWMutex -> simrt", "scheduler", "porcupine v1.3.0 as the history checker (outside the simulation)"},
